@@ -12,6 +12,7 @@ import (
 //verif:case C14 quick VerifMapIterator 0..2 1 0..1
 //verif:case C14 quick VerifMapIterator 1..2 2 0
 //verif:case C14 thorough VerifMapIterator 3 1..2 0..2
+//verif:case C14 thorough VerifMapIterator 4 2 0
 //verif:case C14 thorough VerifMapIterator 2 -1 0
 // VerifMapStream args: items L, parallelism, bufferSize, fault (0 none, 1 source error at symbolic position,
 //   2 f fails on a symbolic item, 3 consumer closes early after a symbolic number of results, 4 one Next with an expired context)
@@ -20,7 +21,6 @@ import (
 //verif:case C14,C08,C09 quick VerifMapStream 1 2 0 0,2
 //verif:case C14,C08,C09 thorough VerifMapStream 2 1 0..1 1,4
 //verif:case C14,C08,C09 thorough VerifMapStream 1 2 0 1,3,4
-//verif:case C14,C08,C09 thorough VerifMapStream 2 2 0 0,2
 //verif:case C14,C08,C09 thorough VerifMapStream 3 1 0 0,2
 
 type vCountIter struct {
@@ -59,10 +59,7 @@ func VerifMapIterator(L int, par int, buf int) {
 	if b < 0 {
 		b = 0
 	}
-	src := &vCountIter{n: L, yielded: &yielded, limit: b + effPar + 1}
-	if b < effPar {
-		src.limit = effPar + effPar + 1
-	}
+	src := &vCountIter{n: L, yielded: &yielded, limit: b + effPar + 1} // the stated bound, with the buffer size as given
 	it := MapIterator[int, int](src, par, buf, func(x int) int {
 		return x*2 + 1 // (workers' sends are scheduling points: later items can finish first)
 	})
@@ -135,8 +132,8 @@ func VerifMapStream(L int, par int, buf int, fault int) {
 	Ef := errors.New("f error")
 	effPar := par
 	b := buf
-	if b < effPar {
-		b = effPar
+	if b < 0 {
+		b = 0
 	}
 	src := &vStreamSrc{n: L, errPos: -1, E: Esrc, yielded: &yielded, limit: b + effPar + 1}
 	failItem := -1
